@@ -35,7 +35,8 @@ from pyvc import ts_extract
 RW = "register_crypto_plugin.ecdsa._rwlock"
 EC = "register_crypto_plugin.ecdsa.ellipticcurve"
 ASSUMPTIONS = [
-    "threading.Lock is a binary semaphore: acquire blocks while held, release by any thread frees it",
+    "threading.Lock is a binary semaphore: acquire blocks while held, release by any thread frees it; threading.RLock "
+    "is owned by the acquiring thread (re-entrant for it, release by any other thread raises RuntimeError)",
     "attribute load / store of an object reference is atomic in CPython (curve-object half)",
     "configuration of the lock proof: 2 readers + 2 writers (the property's configuration); scheduler fairness is not "
     "assumed and not needed for the safety clauses",
@@ -53,13 +54,15 @@ class TS:
     def __init__(self):
         ex = ts_extract.Extractor(repo_file("_rwlock.py"))
         self.locks = list(ex.locks)
+        self.rlocks = set(ex.rlocks)
         self.counters = list(ex.counters)
         self.progs = [ts_extract.flatten(ex.thread_program("reader"))] * NR + \
                      [ts_extract.flatten(ex.thread_program("writer"))] * NW
         self.kinds = ["reader"] * NR + ["writer"] * NW
         self.cs_pc = [next(i for i, s in enumerate(p) if s[0] == "cs") for p in self.progs]
         self.nt = NR + NW
-        self.shared = self.locks + self.counters
+        # an RLock is a hold count (the lock variable) plus its owner (0 = nobody, t + 1 = thread t)
+        self.shared = self.locks + self.counters + ["owner:" + l for l in self.locks if l in self.rlocks]
 
     # ---- concrete semantics (search / validation / replay planning) -------------------
     def init_state(self):
@@ -73,7 +76,20 @@ class TS:
         sh = list(sh)
         tmps = list(tmps)
         nxt = pcs[t] + 1
-        if kind == "acquire":
+        if kind == "acquire" and var in self.rlocks:
+            i, o = self.shared.index(var), self.shared.index("owner:" + var)
+            if sh[i] != 0 and sh[o] != t + 1:
+                return None
+            sh[i] += 1
+            sh[o] = t + 1
+        elif kind == "release" and var in self.rlocks:
+            i, o = self.shared.index(var), self.shared.index("owner:" + var)
+            if sh[i] == 0 or sh[o] != t + 1:
+                return "ERR"            # RuntimeError: cannot release un-acquired lock (not the owner)
+            sh[i] -= 1
+            if sh[i] == 0:
+                sh[o] = 0
+        elif kind == "acquire":
             i = self.shared.index(var)
             if sh[i] != 0:
                 return None
@@ -107,7 +123,7 @@ class TS:
             return "writer shares the lock"
         succ = [self.step(st, t) for t in range(self.nt)]
         if any(s == "ERR" for s in succ):
-            return "release of a free lock"
+            return "release of a lock that is free or owned by another thread"
         if all(s is None for s in succ):
             return "deadlock"
         return None
@@ -196,6 +212,12 @@ class TS:
 
 
 def derive_invariant(ts):
+    if ts.rlocks:
+        raise ts_extract.ExtractError("owned / re-entrant locks %s are outside the counting-invariant template" % sorted(ts.rlocks))
+    return _derive_invariant(ts)
+
+
+def _derive_invariant(ts):
     """the counting invariant of the light-switch pattern, built mechanically from the extracted commands:
        lock L        == number of threads inside a (acquire L .. release L] range  +  [L is held by a group]
        counter C     == number of threads between their `C += 1` write and their `C -= 1` write
@@ -437,6 +459,7 @@ def replay_schedule(M, sched):
     def body(t):
         sys.settrace(tracer_for(t))
         try:
+          try:
             for _ in range(3):
                 if ts.kinds[t] == "reader":
                     lock.reader_acquire()
@@ -452,6 +475,8 @@ def replay_schedule(M, sched):
                         bad.append("writer %d not alone: %s" % (t, holders))
                     holders.remove(t)
                     lock.writer_release()
+          except Exception as e:       # e.g. RuntimeError: cannot release un-acquired lock
+            bad.append("thread %d (%s): %s: %s" % (t, ts.kinds[t], type(e).__name__, e))
         finally:
             sys.settrace(None)
 
